@@ -43,6 +43,8 @@ enum Probe {
     Noise { r6: u8 },
     /// envelope level per step
     Env { r13: u8, ep: u16 },
+    /// envelope period rewritten while the envelope runs
+    EnvRetime { shape: u8, ep0: u16, run: u32, ep1: u16 },
     /// mixer gate / amplitude index for one R7 mask and three volume registers
     Gate { ym: bool, mode: usize, r7: u8, vols: [u8; 3] },
     /// DAC monotonicity through the pre-filter level
@@ -97,6 +99,7 @@ impl Probe {
             Probe::Tone { ch, fine, coarse } => format!("tone ch={} fine={} coarse={}", ch, fine, coarse),
             Probe::Noise { r6 } => format!("noise r6={}", r6),
             Probe::Env { r13, ep } => format!("env r13={} ep={}", r13, ep),
+            Probe::EnvRetime { shape, ep0, run, ep1 } => format!("envretime shape={} ep0={} run={} ep1={}", shape, ep0, run, ep1),
             Probe::Gate { ym, mode, r7, vols } => {
                 format!("gate ym={} mode={} r7={} v0={} v1={} v2={}", *ym as u8, mode, r7, vols[0], vols[1], vols[2])
             }
@@ -133,6 +136,7 @@ impl Probe {
             "tone" => Probe::Tone { ch: n("ch")? as usize, fine: n("fine")? as u8, coarse: n("coarse")? as u8 },
             "noise" => Probe::Noise { r6: n("r6")? as u8 },
             "env" => Probe::Env { r13: n("r13")? as u8, ep: n("ep")? as u16 },
+            "envretime" => Probe::EnvRetime { shape: n("shape")? as u8, ep0: n("ep0")? as u16, run: n("run")? as u32, ep1: n("ep1")? as u16 },
             "gate" => Probe::Gate {
                 ym: b("ym")?,
                 mode: n("mode")? as usize,
@@ -583,6 +587,47 @@ fn probe_env(model: &mut Model, r13: u8, ep: u16, rep: Option<&mut Report>) -> O
             format!("R13={:#x} (shape {}), EP={}: level per envelope step{}", r13, shape, ep, if steady { "" } else { " (level changed inside a step)" }),
             seq.iter().take(70).map(|x| format!("{:x}", x)).collect::<Vec<_>>().join(","),
             want,
+        ));
+    }
+    None
+}
+
+/// The envelope period rewritten while the envelope runs (R13 not touched): from its next step on the
+/// envelope steps every EP' ticks, and that next step comes no later than the old period allowed.
+fn probe_env_retime(model: &mut Model, shape: u8, ep0: u16, run: u32, ep1: u16, rep: Option<&mut Report>) -> Option<Disagreement> {
+    let p0 = usize::from_str_radix(&model.ask(&format!("spec envp {:x}", ep0)), 16).unwrap();
+    let p1 = usize::from_str_radix(&model.ask(&format!("spec envp {:x}", ep1)), 16).unwrap();
+    let mut ay = mk(false, 0, 44100);
+    ay.write_register(11, ep0 as u8);
+    ay.write_register(12, (ep0 >> 8) as u8);
+    ay.write_register(13, shape);
+    if ticks_real(&mut ay, run as usize).is_err() {
+        return Some(dis(Kind::SpecViolated, "C18/panic", "update_mixer panicked", "panic", "no panic"));
+    }
+    ay.write_register(11, ep1 as u8);
+    ay.write_register(12, (ep1 >> 8) as u8);
+    let n = p0.max(p1) + p1 * 6 + 4;
+    let vs = match ticks_real(&mut ay, n) {
+        Ok(v) => v,
+        Err(e) => return Some(dis(Kind::SpecViolated, "C18/panic", "update_mixer panicked", e, "no panic")),
+    };
+    if let Some(r) = rep {
+        r.eval();
+        r.class(format!("env-retime shape={} {}", shape & 15, if p1 < p0 { "shorter" } else { "longer" }));
+    }
+    // steps of a running ramp change the level or (at a turn) the segment
+    let changes: Vec<usize> = (1..vs.len())
+        .filter(|t| vs[*t].envelope != vs[*t - 1].envelope || vs[*t].envelope_segment != vs[*t - 1].envelope_segment)
+        .collect();
+    let first = changes.first().copied().unwrap_or(usize::MAX);
+    let intervals: Vec<usize> = changes.windows(2).map(|w| w[1] - w[0]).collect();
+    if first > p0.max(p1) + 1 || intervals.len() < 3 || intervals.iter().any(|d| *d != p1) {
+        return Some(dis(
+            Kind::SpecViolated,
+            "C18/envelope.retime",
+            format!("shape {} running with EP={}, after {} ticks EP rewritten to {} (R13 untouched): ticks to the next step, then between steps", shape & 15, ep0, run, ep1),
+            format!("first after {} ticks, then {:?}", first, &intervals[..intervals.len().min(6)]),
+            format!("first within {} ticks, then every {} ticks", p0.max(p1), p1),
         ));
     }
     None
@@ -1173,6 +1218,7 @@ fn run_probe(model: &mut Model, p: &Probe, rep: Option<&mut Report>) -> Option<D
         Probe::Noise { r6 } => probe_noise(model, *r6, rep),
         Probe::Env { r13, ep } => probe_env(model, *r13, *ep, rep),
         Probe::Gate { ym, mode, r7, vols } => probe_gate(model, *ym, *mode, *r7, *vols, rep),
+        Probe::EnvRetime { shape, ep0, run, ep1 } => probe_env_retime(model, *shape, *ep0, *run, *ep1, rep),
         Probe::Dac { ym } => probe_dac(model, *ym, rep),
         Probe::Pan { mode, ch } => probe_pan(model, *mode, *ch, rep),
         Probe::SigFreq { ym, rate, tp, ch } => probe_sigfreq(model, *ym, *rate, *tp, *ch, rep),
@@ -1524,6 +1570,12 @@ addresses. distinct = generator/mode/shape/segment/gate classes seen by (1), par
         }
     }
     run.rep.sample(J::s(Probe::SigFreq { ym: false, rate: 44100, tp: 200, ch: 0 }.text()));
+    // envelope period rewritten in mid-run, R13 untouched (repeating shapes: every step is visible)
+    for shape in [8u8, 10, 12, 14] {
+        for (ep0, ticks, ep1) in [(2000u16, 700u32, 100u16), (300, 299, 7), (300, 150, 150), (50, 20, 400), (7, 3, 1), (1, 5, 9), (1000, 999, 999), (600, 300, 0)] {
+            run.go(&Probe::EnvRetime { shape, ep0, run: ticks, ep1 });
+        }
+    }
     // (4) ports
     for m128 in [true, false] {
         for alias in [false, true] {
